@@ -164,6 +164,7 @@ static void* ds_thread(void* p) {
   if (DS->thread_begin) DS->thread_begin(t);
   for (int k = 0; k < g_case.n_ops[t]; k++) {
     op_t* op = &g_case.ops[t][k];
+    vs_program_advanced();
     if (!strcmp(op->name, "work")) ds_work(t, op->a);
     else if (!strcmp(op->name, "nop")) {
     } else if (!DS->do_op(t, op)) vs_violation("engine_limit", "unknown ds op %s", op->name);
